@@ -65,6 +65,8 @@ class LawfulNum (N : Type) [NumOps N] : Prop where
   cmp_swap : ∀ a b : N, NumOps.cmp b a = (NumOps.cmp a b).swap
   cmp_trans : ∀ a b c : N, NumOps.cmp a b ≠ .gt → NumOps.cmp b c ≠ .gt → NumOps.cmp a c ≠ .gt
   cmp_eq_iff : ∀ a b : N, NumOps.cmp a b = .eq ↔ a = b
+  /-- `==` on numbers is "equal under the order" -/
+  eq_iff_cmp : ∀ a b : N, NumOps.eq a b = true ↔ NumOps.cmp a b = .eq
   toInt_ofInt : ∀ i : Int, NumOps.toInt? (NumOps.ofInt i : N) = some i
   ofInt_inj : ∀ i j : Int, (NumOps.ofInt i : N) = NumOps.ofInt j → i = j
   /-- integers are not NaN and are their own floor (so they index arrays exactly) -/
